@@ -610,6 +610,9 @@ pub struct C02;
 
 impl C02 {
     pub fn new() -> C02 {
+        // this check's own histories carry /Index pairs with count 0 (the history documents that C09 and
+        // C12 borrow from `gen_history` keep their bytes)
+        crate::docgen::EMPTY_INDEX_PAIRS.store(true, std::sync::atomic::Ordering::Relaxed);
         C02
     }
     fn shrink(&self, h: &History, sig: &str) -> (History, String) {
@@ -736,7 +739,7 @@ impl Check for C02 {
         CheckInfo {
             id: "C02",
             level: "exploration",
-            rule: "one run = one update history of 1-4 (quick) / 1-8 (thorough) revisions over 3-12 value object numbers written by the harness's independent writer (classic tables with arbitrary subsection splits; xref streams with arbitrary /Index splits, /W widths incl. width-0 type field, optional filter (stored-block Flate, ASCIIHex, LZW, ASCII85 with z groups and a short final group, ASCIIHex over Flate with /DecodeParms [null <<..>>]) and predictor (TIFF 2, PNG 10-15; the rows declared as one colour of 8 bits, two colours of 8 bits, 16-bit or 4-bit samples); objects direct, in one or two object streams with or without filter and trailing white space, freed with generation+1, reused; /Size growth; moving /Root; trailers with and without /Info; sparse numbering (an object 6000 in a file of a few kB); frees with generation 65535; one history in five written RC4-encrypted (revision 2, 3 or 4 of the standard security handler, empty user password) by the harness's own MD5/RC4 implementation, which the self-test checks against the /O and /U entries of the two RC4 corpus files), opened after every append (every crash point that keeps whole revisions) strict+uncached and tolerant+cached; every number below /Size is resolved and compared with the model 'newest mention wins'; the trailer (/Root, /ID, /Size, /Info, presence of /Prev) must be that of the newest section. Non-trivial = some revision overrides an earlier mention; distinct = hash of the history",
+            rule: "one run = one update history of 1-4 (quick) / 1-8 (thorough) revisions over 3-12 value object numbers written by the harness's independent writer (classic tables with arbitrary subsection splits; xref streams with arbitrary /Index splits incl. pairs with count 0, /W widths incl. width-0 type field, optional filter (stored-block Flate, ASCIIHex, LZW, ASCII85 with z groups and a short final group, ASCIIHex over Flate with /DecodeParms [null <<..>>]) and predictor (TIFF 2, PNG 10-15; the rows declared as one colour of 8 bits, two colours of 8 bits, 16-bit or 4-bit samples); objects direct, in one or two object streams with or without filter and trailing white space, freed with generation+1, reused; /Size growth; moving /Root; trailers with and without /Info; sparse numbering (an object 6000 in a file of a few kB); frees with generation 65535; one history in five written RC4-encrypted (revision 2, 3 or 4 of the standard security handler, empty user password) by the harness's own MD5/RC4 implementation, which the self-test checks against the /O and /U entries of the two RC4 corpus files), opened after every append (every crash point that keeps whole revisions) strict+uncached and tolerant+cached; every number below /Size is resolved and compared with the model 'newest mention wins'; the trailer (/Root, /ID, /Size, /Info, presence of /Prev) must be that of the newest section. Non-trivial = some revision overrides an earlier mention; distinct = hash of the history",
             assumptions: vec![
                 "trusted base: the harness's writer; every written file is cross-checked by the harness's strict reader (offsets, section chain, newest-first merge) before it is used, disagreement is a harness error".into(),
                 "crash points are revision boundaries; a torn final append, hybrid-reference files and sections violating the generation rules are outside the statement".into(),
